@@ -34,6 +34,10 @@ FRAGS = ["<", ">", "&", "\"", "'", "<script>alert(1)</script>", "</TT><script>",
          "&lt;", "&amp;", "&#60;", "-->", "<!--", "]]>", "</a>", "<a href=\"http://evil/\">", "</card>", "<do type=\"accept\">",
          "$(sr0)", "+INFO: 1fake\tfake\tfake\t70", "+ADMIN:", "+VIEWS:", "\r\n", "\n", "\r\nSet-Cookie: x=1", "\r\n\r\n<html>",
          "%0d%0a", "%22", "%3c", "abc", "x y", "\xc3\xa9", "\xff",
+         # compatibility characters that a Unicode normalisation or an "ASCII-fying" step turns INTO markup characters
+         # (full-width < > " = / &, not-less-than) - after the escaping has been done
+         "\xef\xbc\x9cb\xef\xbc\x9e", "\xef\xbc\x9cscript\xef\xbc\x9e", "\xef\xbc\x82 onx\xef\xbc\x9d\xef\xbc\x82", "\xe2\x89\xaeb\xe2\x89\xaf",
+         "\xef\xbc\x86lt;", "\xef\xbc\x9c\xef\xbc\x8fa\xef\xbc\x9e",
          # text that a regular-expression replacement template, a %-format or str.format would expand
          "\\074script\\076", "\\042\\076", "\\g<0>", "\\1", "\\n", "\\d", "%s", "%(x)s", "{0}", "{x}"]
 payload_st = st.lists(st.sampled_from(FRAGS), min_size=1, max_size=4).map("".join)
